@@ -10,6 +10,7 @@ import katpoint
 from fixtures import v4
 from katdal.spectral_window import SpectralWindow
 from props import c17_ext as ext
+from props import c17_y as third
 
 RULE = ('(a) v4 data sets with dyadic timing attributes: capture start (incl. time_offset) exactly on, one second / a '
         'quarter second / an hour / whole days either side of each documented fix date or far from it, both CBF '
@@ -250,20 +251,25 @@ def check_timing(ctx, t, T, a=None, b=None, via='direct', sl=None):
 
 
 def check_fix_date_reading(ctx):
-    """katpoint.Timestamp('<date>').secs, as used by _before, is UTC midnight of the date for the dates of the rule."""
+    """The dates of the rule, read as the source reads them (calendar.timegm(time.strptime(date, '%Y-%m-%d'))), are UTC
+    midnight of the date in every process time zone."""
+    import calendar
+    import time
     try:
         from vh import core
         from vh.items import c17 as items
         dates = items.fix_date_strings(core.REPO)
     except Exception:
         dates = []
-    for (s, secs) in dates + [('2019-02-11', FIX_DATES[0]), ('2019-03-03', FIX_DATES[1]), ('2019-03-15', FIX_DATES[2])]:
-        got = katpoint.Timestamp(s).secs
-        if got != secs:
-            ctx.disagree('what=fix_date_reading', dict(date=s), got, None,
-                         'katpoint.Timestamp(date).secs is not UTC midnight of the date', spec=secs)
-        ctx.note_case(('date', s), sample=None)
-        ctx.count('fix_date_reading')
+    for z in [z for z in third.ZONES if third.zone_ok(z)]:
+        for (s, secs) in dates + [('2019-02-11', FIX_DATES[0]), ('2019-03-03', FIX_DATES[1]), ('2019-03-15', FIX_DATES[2])]:
+            with third.Zone(z):
+                got = calendar.timegm(time.strptime(s, '%Y-%m-%d'))
+            if got != secs:
+                ctx.disagree('what=fix_date_reading', dict(date=s, zone=z), got, None,
+                             'the date of the rule is not read as UTC midnight in zone ' + z, spec=secs)
+            ctx.note_case(('date', s, z), sample=None)
+            ctx.count('fix_date_reading')
 
 
 # ---------------------------------------------------------------------------- spectral windows
@@ -728,9 +734,14 @@ def run_extension(ctx):
 def run(ctx):
     rng = ctx.rng
     # known-finding witnesses first
+    import sys
+    me = sys.modules[__name__]
     for f in ctx.findings:
         w = f['witness']
-        check_timing(ctx, w['timing'], w['T'], w['a'], w['b'])
+        if 'tz' in w:
+            third.check_tz(ctx, me, w['timing'], w['T'], tuple(w['sl']), w['tz'], w.get('via', 'direct'))
+        else:
+            check_timing(ctx, w['timing'], w['T'], w['a'], w['b'])
     check_fix_date_reading(ctx)
     for _ in range(ctx.scale(170, 1700)):
         t = gen_timing(rng)
@@ -761,12 +772,15 @@ def run(ctx):
         check_concat(ctx, t, T1, T2, F, (c, rng.randint(c + 1, F)), (a, rng.randint(a + 1, T1 + T2)))
     check_preselect_validation(ctx)
     run_extension(ctx)
+    third.run_third(ctx, me)
 
 
 def replay(ctx, doc):
     case = doc['case']
     import sys
     me = sys.modules[__name__]
+    if third.replay(ctx, me, case):
+        return
     if case.get('open_model'):
         ext.check_open(ctx, me, case['timing'], case['T'], case['F'], case['N'], case['dsl'], case['csl'], case['via'],
                        cw=case['cw'], centre=case['centre'])
